@@ -314,7 +314,38 @@ def r09_5(run, model):
         run.ob("R09.5", "dce_block_with_live|Stmt::Go unconditional", not cond, site(DCE, arm["sp"]), f"{len(cond)} conditionals in the Go arm")
 
 
+EFFECT_FORMS = ("ECall", "EDynCall", "EGo")  # CExpr forms that run user code when evaluated for their effect only
+
+
+def r09_6(run, model):
+    run.rule("R09.6", "an expression evaluated only for its effect still runs: compile_cexpr_effect decides every CExpr form explicitly (no "
+                      "catch-all) and the arms that emit nothing name no call form (ECall, EDynCall, EGo)")
+    f = model.fn("compile_cexpr_effect", GOC)
+    m = big_match(f, "CExpr")
+    if m is None:
+        raise AnalysisIncomplete("compile_cexpr_effect: no match over CExpr")
+    cexpr = model.enum("CExpr", ANF)
+    allv = [v["name"] for v in cexpr["variants"]]
+    for form in EFFECT_FORMS:
+        if form not in allv:
+            raise AnalysisIncomplete(f"anf::CExpr has no variant {form}")
+    by = arms_by_variant(m, "CExpr")
+    catch = [a for a in m["arms"] if S.pat_head(S.pat_alts(a["pat"])[0])[0] == "any" and a.get("guard") is None]
+    missing = [v for v in allv if v not in by]
+    run.ob("R09.6", "compile_cexpr_effect|every form decided explicitly", not (catch and missing), site(GOC, m["sp"]),
+           f"forms reaching a catch-all: {missing or 'none'}",
+           witness="a dyn-trait method call in tail position of a while body is not emitted: the loop body's effect is lost")
+    for form in EFFECT_FORMS:
+        arms = by.get(form, [])
+        emits = bool(arms) and all(not (a["body"]["k"] in ("Call", "MethodCall") and S.norm_ws(run.facts.text(GOC, a["body"]["sp"])) == "Vec::new()") and
+                                   (any(True for _ in S.calls(a["body"], "compile_cexpr", "compile_go")) or a["body"]["k"] == "Macro" and a["body"]["name"] == "panic")
+                                   for a in arms)
+        run.ob("R09.6", f"compile_cexpr_effect|{form} emits a statement", emits, site(GOC, arms[0]["sp"] if arms else m["sp"]),
+               f"{form}: {'compiled into a statement' if emits else 'no statement emitted'}")
+
+
 def run(run, model):
+    run.try_rule(r09_6, model)
     run.try_rule(r09_1, model)
     run.try_rule(r09_2, model)
     run.try_rule(r09_3, model)
